@@ -50,6 +50,15 @@ func reportGated(c *vf.Ctx, r gatedResult) {
 	for _, cl := range workerClasses(r.Cfg.Workers) {
 		c.Count("gated_workers_class:"+cl, 1)
 	}
+	if r.Cfg.Kind == "options" {
+		c.Count("schedules:options", 1)
+		c.Count("option_histories:"+r.Cfg.Variant, 1)
+		c.Count("rejected_submits", r.RejectedSubmits)
+		c.Count("recovered_submit_panics", r.RecoveredPanics)
+		if r.Cfg.PanicOpt {
+			c.Count("schedules_with_panic_on_submit_option", 1)
+		}
+	}
 	if r.Cfg.Kind == "watchers" || r.Cfg.Kind == "cstart" {
 		c.Count("schedules:"+r.Cfg.Kind, 1)
 		if r.Cfg.Kind == "cstart" {
@@ -100,6 +109,9 @@ func reportGated(c *vf.Ctx, r gatedResult) {
 func reportGroup(c *vf.Ctx, r groupResult) {
 	c.Count("evaluations", 1)
 	c.Count("group_scenarios", 1)
+	if r.Cfg.Idx%2 == 1 {
+		c.Count("group_scenarios_concurrent_creation", 1)
+	}
 	c.Count("group_wait_checks", r.Checks)
 	c.Count("group_wait_parked_observations", r.Parked)
 	c.Count("group_wait_returned_observations", r.Returned)
@@ -143,6 +155,7 @@ func reportStress(c *vf.Ctx, r stressResult) {
 		c.Distinct("nontrivial", fmt.Sprintf("stress/%d/%d/%v", r.Cfg.Seed, r.Cfg.Run, r.Cfg.Race))
 	}
 	c.Count("stress_submit_calls", int(r.Submitted))
+	c.Count("stress_recovered_submit_panics", int(r.Recovered))
 	c.Count("stress_submits_seen_not_running", int(r.Rejected))
 	c.Count("yield_hits:"+ptAfterCheck, int(r.Hits[0]))
 	c.Count("yield_hits:"+ptBeforePush, int(r.Hits[1]))
@@ -546,6 +559,9 @@ func run(c *vf.Ctx) {
 
 	c.Require("evaluations", c.Pick(2000, 100000))
 	c.Require("gated_windows_entered", c.Pick(250, 3000))
+	c.Require("schedules:options", 48)
+	c.Require("schedules_with_panic_on_submit_option", 24)
+	c.Require("recovered_submit_panics", 24)
 	c.Require("schedules:watchers", 16)
 	c.Require("concurrent_start_schedules:fresh", 8)
 	c.Require("concurrent_start_schedules:stopped", 8)
@@ -563,6 +579,7 @@ func run(c *vf.Ctx) {
 	c.Require("window:"+ptBeforePush, 50)
 	c.Require("window:"+ptBeforeWait, 50)
 	c.Require("group_wait_parked_observations", 500)
+	c.Require("group_scenarios_concurrent_creation", c.Pick(150, 5000))
 	c.Require("stress_runs_submit_overlapping_shutdown", c.Pick(300, 15000))
 	c.Require("stress_runs_race_build", c.Pick(300, 9000))
 	c.Assume("a consistent runtime.Stack(all) snapshot in which every goroutine is parked on a sync primitive or channel (twice in a row, timer-free scenario) means no goroutine can ever run again")
